@@ -122,3 +122,7 @@ RULE = ("leg A: TLC explores Gpio_MC (the builder layout, CsrMux, register packi
 
 def main(tier):
     return hwcheck.check("C16", tier, Adapter(), RULE)
+
+
+def replay(path):
+    return hwcheck.replay(path, [Adapter()])
